@@ -101,6 +101,7 @@ fn $name() {
 // @props C01 C09
 // @tier quick
 // @cost 120
+// @mem 24
 // @timeout 1500
 // @needs GE
 // @desc the whole body of get_l2_entries (cache / L1 lookups shimmed by two adjacent L2 slices with arbitrary entries, each cached or not): it returns exactly one entry per guest cluster touched by [off, off+len), in order, and entry i is the L2 entry of guest cluster first+i taken from the RIGHT slice at the RIGHT index -- including requests that start in the middle of a slice and cross into the next one
